@@ -70,6 +70,10 @@ class _Dead(Exception):
     """the current guard became False (everything returned / raised): unwind to the last split"""
 
 
+class _PureFork(Exception):
+    """a path decision was requested while a pure call was being evaluated guard-free"""
+
+
 class _TargetRaise(Exception):
     def __init__(self, name, g=None):
         self.name = name
@@ -302,6 +306,8 @@ class Interp:
         self.nomerge = set()
         self.unroll_hint = {}
         self.drop_attr_stores = set(drop_attr_stores)
+        self.in_pure = 0
+        self.no_pure = set()
         self.const_mode = False                       # set by run_concrete(): arguments are wrapped constants
         self.pure = set(pure)                         # functions without side effects: calls are memoised per path
         self.fork_on_return = fork_on_return          # early exits (`if c: return/raise`) fork instead of merging
@@ -581,6 +587,8 @@ class Interp:
             return True
         if z3.is_false(cond):
             return False
+        if self.in_pure:
+            raise _PureFork()
         ctx = self.ctx
         if ctx.pos < len(ctx.prefix):
             v = ctx.prefix[ctx.pos]
@@ -643,8 +651,9 @@ class Interp:
         # defer, and meanwhile *assume* the assertion: the rest of the path is explored for the states
         # that did finish the loop; the path is only accepted once _check_unwind has proved the assertion
         self.ctx.unwind.append((g, s))
-        self.ctx.s.add(z3.Not(g))
-        self.ctx.model = None
+        if not self.in_pure:          # (inside a guard-free pure evaluation the assertion is attached per use)
+            self.ctx.s.add(z3.Not(g))
+            self.ctx.model = None
         return False
 
     def decide_guarded(self, c):
@@ -715,6 +724,7 @@ class Interp:
                 self.g = True
                 self.frames = []
                 self.merge_stack = []
+                self.in_pure = 0
                 try:
                     dead = False
                     try:
@@ -735,6 +745,13 @@ class Interp:
                     r = None
                     break
                 ctx = self.ctx
+                for ent in ctx.memo.values():          # side conditions of memoised evaluations, under the guards of their uses
+                    if ent["side"]:
+                        gu = g_or(ent["uses"])
+                        body = z3.And(ent["side"]) if len(ent["side"]) > 1 else ent["side"][0]
+                        if gu is not False:
+                            ctx.side.append(body if gu is True else z3.Implies(gu, body))
+                    ent["side"] = []
                 if ctx.unwind and not self._check_unwind(ctx):
                     self.stats["restarts"] += 1
                     continue
@@ -930,32 +947,60 @@ class Interp:
         return ("o", id(v))
 
     def _call_pure(self, f, args):
-        """memo for calls of functions declared pure by the harness: the same function on the same terms
-        under the same guard yields the same term (z3 terms are hash-consed), so side conditions, raises and
-        the result of the first evaluation are reused.  Only valid within one path (cleared per path)."""
+        """memo for calls of functions declared pure by the harness.  The first call with given argument terms is
+        evaluated under the guard True with its effects captured *relative* to that call (side conditions,
+        raises, deferred unwinding assertions, remaining guard); every use - the first and all later ones,
+        under whatever guard - re-attaches those effects under its own guard.  The same function on the same
+        terms yields the same z3 term (hash-consing), so e.g. the powers of one element are built once even
+        when a search loop re-evaluates them under ever narrower guards.  Valid within one path only.  A
+        path decision inside the evaluation cannot be made guard-free: the function is then evaluated
+        normally (and remembered as not memoisable)."""
+        if self.in_pure or f in self.no_pure:
+            return self.call(f, args)
         try:
-            key = (f, "T" if self.g is True else self.g.get_id(), tuple(self._key(a) for a in args))
+            key = (f, tuple(self._key(a) for a in args))
         except TypeError:
             return self.call(f, args)
-        hit = self.ctx.memo.get(key)
-        if hit is not None:
+        ctx = self.ctx
+        g_use = self.g
+        ent = ctx.memo.get(key)
+        if ent is None:
+            n_side, n_r, n_u = len(ctx.side), len(ctx.raises), len(ctx.unwind)
+            n_ms, n_fr = len(self.merge_stack), len(self.frames)
+            self.in_pure += 1
+            self.g = True
+            try:
+                try:
+                    val = self.call(f, args)
+                    g_rel = self.g
+                except _Dead:
+                    val, g_rel = None, False
+            except _PureFork:
+                del ctx.side[n_side:], ctx.raises[n_r:], ctx.unwind[n_u:]
+                del self.merge_stack[n_ms:], self.frames[n_fr:]
+                self.no_pure.add(f)
+                self.g = g_use
+                self.in_pure -= 1
+                return self.call(f, args)
+            self.in_pure -= 1
+            ent = dict(val=val, g=g_rel, side=ctx.side[n_side:], raises=ctx.raises[n_r:], unwind=ctx.unwind[n_u:], uses=[], keep=args)
+            del ctx.side[n_side:], ctx.raises[n_r:], ctx.unwind[n_u:]
+            ctx.memo[key] = ent
+        else:
             self.stats["memo_hits"] = self.stats.get("memo_hits", 0) + 1
-            g_after, val = hit[0], hit[1]
-            self.g = g_after
-            if g_after is False:
-                raise _Dead()
-            return val
-        n_dec = self.ctx.pos
-        g_in = self.g
-        try:
-            val = self.call(f, args)
-        except _Dead:
-            if self.ctx.pos == n_dec:
-                self.ctx.memo[key] = (False, None, g_in, args)
-            raise
-        if self.ctx.pos == n_dec:              # no path decision was taken inside: the evaluation is context-free
-            self.ctx.memo[key] = (self.g, val, g_in, args)
-        return val
+        ent["uses"].append(g_use)
+        for gi, name in ent["raises"]:
+            ctx.raises.append((g_and(g_use, gi), name))
+        for gi, node in ent["unwind"]:
+            gg = g_and(g_use, gi)
+            if gg is not False:
+                ctx.unwind.append((gg, node))
+                ctx.s.add(z3.Not(gg))
+                ctx.model = None
+        self.g = g_and(g_use, ent["g"])
+        if self.g is False:
+            raise _Dead()
+        return ent["val"]
 
     def native(self, f, args, kwargs):
         try:
